@@ -14,18 +14,21 @@ import (
 func init() {
 	register(&Property{
 		ID: "C06",
-		Explanation: "Decided: (R1) the actor state is written only by CAS(running→killing), CAS(killing→killed) and the restart step's Store(running); the kill routine is entered only after a won CAS(running→killing) or for a zombie; " +
+		Explanation: "Decided: (R1) the actor state is written only by CAS(running→killing), CAS(killing→killed) and the restart step's Store(running), the kill routine is entered only behind the won first CAS or for a zombie, and the zombie's release — which skips that CAS — is dominated by a latch of its own (a won CAS, or the not-yet edge of a bool field set before the clean-up and never reset: F39), and a non-poison kill that loses the CAS to a restart in progress clears the restart marker on every path, so the pending kill chain ends as a termination (F40); the kill routine is entered only after a won CAS(running→killing) or for a zombie; " +
 			"(R2) the kill routine forwards Kill (same poison flag) to every child, one call per iteration, never leaving the loop early; (R3) the killed mark is taken only on the 'no children left' edge and every later step of the kill chain does nothing unless the mark was won; " +
 			"(R4) on the terminating path unsubscribe-all, registry removal, one OnKilled to every watcher and to the parent, ActorKilledEvent and scheduler clear each happen exactly once, and none of the first five is reachable on the restart path; the registry removal precedes every termination notice; " +
 			"(R5) ActorOf refuses when the parent is killed and kills the new child when the parent is killing, and that decision is taken on a state read after the child is in the parent's table (F37: a sample from the entry goes stale when the root's ActorOf races its stop); (R6) a child's death is recorded before the killed gate is evaluated. " +
-			"(R10) the handler that records watchers stores the sender on every path, except on the edge where the sender is the parent (notified separately), where the same key is already recorded, or after telling the sender directly; " +
-			"(R9 = C20.R1) the scheduler-cleanup step deletes every recorded job, the loop is never left early. (R6, addition) inside the child-death step the dead child's table entry is removed before the user's handler for that death runs (a same-name re-spawn in the handler must not be deleted afterwards). NOT decided: cross-actor ordering of termination reports at run time, concurrent kills racing spawns.",
+			"(R10) the handler that records watchers stores the sender on every path, except on the edge where the sender is the parent (notified separately), where the reference stored under the key IS the sender's own reference object (the key being already recorded does not exempt: the key is address@path and the stored reference may be a dead namesake's, F38), or after telling the sender directly; " +
+			"(R9 = C20.R1) the scheduler-cleanup step deletes every recorded job, the loop is never left early. (R6, addition) inside the child-death step the dead child's table entry is removed before the user's handler for that death runs (a same-name re-spawn in the handler must not be deleted afterwards), and a delete from the path-keyed child table is dominated by Equals(entry looked up, reference) == true, so the death of a namesake on another system does not remove the live local child (F41). (R10, additions) see F38; the watcher table as a whole is replaced only by its lazy creation or on a path of a kill-chain step that a restart cannot take. (R11 = the graceful-stop and chain-walk checks of C09.R3) a graceful stop decided after an escalation resumes every actor suspended along the chain. (R5 of C04, shared as C07.R10) the path-keyed sweep of pending asks never runs after the path was released. NOT decided: cross-actor ordering of termination reports at run time, concurrent kills racing spawns.",
 		Assumptions: []string{"the kill chain steps are exactly the functions appended in the context's kill-chain builder (chain idiom)"},
 		Rules: []Rule{
 			{ID: "C06.R1", Min: 5, Desc: "one-shot kill entry; state writers", Fn: c06OneShot},
 			{ID: "C06.R2", Min: 2, Desc: "kill forwarded to all children with the same poison flag", Fn: c06Forward},
 			{ID: "C06.R3", Min: 6, Desc: "killed gate: no children left; later steps gated by the won mark", Fn: c06Gate},
 			{ID: "C06.R4", Min: 10, Desc: "cleanup completeness: each effect exactly once on termination, none on restart", Fn: c06Cleanup},
+			{ID: "C06.R11", Min: 2, Desc: "a graceful stop decided after an escalation resumes every actor suspended along the chain, so the poison can reach the failed actor and the subtree terminates (the graceful-stop and chain-walk checks of C09.R3)", Fn: func(p *Program, r *Report) {
+				r.only(c09Broadcast, func(c string) bool { return strings.Contains(c, "graceful stop") || strings.Contains(c, "broadcast ") })
+			}},
 			{ID: "C06.R5", Min: 3, Desc: "spawn while dying", Fn: c06SpawnWhileDying},
 			{ID: "C06.R6", Min: 1, Desc: "child death recorded before the killed gate", Fn: c06ChainOrder},
 			{ID: "C06.R8", Min: 4, Desc: "every spawned child is in the parent's child table before it runs, so the kill fan-out reaches it (C05.R2)", Fn: c05Spawn},
@@ -95,6 +98,123 @@ func c06OneShot(p *Program, r *Report) {
 			r.Check(len(succ) > 0 && g.DominatedByEdges(i, mergeEdges(succ, zomb)), "kill routine entered from "+fnName(fn), in.Pos(),
 				"the call of the kill routine is dominated by the success edge of CAS(state, running→killing) or by a zombie edge")
 		}
+	}
+	// (d) a kill is never lost to a restart in progress. An actor being restarted is in state killing; an immediate Kill arriving
+	// then loses the CAS of (b). On that edge, for a non-poison kill that finds the state killing, every path clears the restart
+	// marker: the kill chain that is waiting for the children then ends as a termination. Without it the actor is running again
+	// after the restart although it was killed (F40).
+	if lc.OnKill != nil && lc.RestartingF != nil {
+		g := p.ig(lc.OnKill)
+		_, _, lost := p.casEdges(g, lc.State, &lc.Killing)
+		clears := nodesWhere(g, func(in ssa.Instruction) bool {
+			st, ok := in.(*ssa.Store)
+			if !ok {
+				return false
+			}
+			f, _ := fieldAddr(st.Addr)
+			return f == lc.RestartingF && isNilConst(st.Val)
+		})
+		out := map[edge]bool{}
+		for _, ifi := range g.ifs() {
+			for _, oc := range []bool{true, false} {
+				f, ok := condFact(ifi.Cond, oc)
+				if !ok {
+					continue
+				}
+				e := g.branchEdge(ifi, oc)
+				// poison kills travel in the user queue and cannot arrive while the restart holds the mailbox paused
+				if f.Bool && f.Op == token.NEQ && anyContains(p.origins(f.X), ".Poison<-") {
+					out[e] = true
+				}
+				// the state is not killing (already killed: nothing left to terminate)
+				if !f.Bool && !f.IsNil && f.Y == nil && f.Op == token.NEQ && f.C == lc.Killing {
+					if a := atomicCall2(f.X); a != nil && a.Field == lc.State {
+						out[e] = true
+					}
+				}
+			}
+		}
+		okL := len(lost) > 0 && len(clears) > 0
+		for e := range lost {
+			if !clears[e.to] && anyIn(g.Reach([]int{e.to}, clears, out), g.Exits) {
+				okL = false
+			}
+		}
+		r.Check(okL, "a kill arriving during a restart turns it into a termination", firstPos(g, clears), "on the lost edge of CAS(running→killing), for a non-poison kill that finds the state killing, every path clears the restart marker before returning: the pending kill chain ends as a termination when the last child is gone")
+	}
+	// (c) the zombie's release is one-shot too. A zombie skips the CAS of (b), so the release it reaches through the zombie edge of
+	// the termination handler needs a latch of its own: the clean-up call is dominated by the not-yet edge of a test of a bool
+	// field of the context and by a store of true into that field, and nothing ever stores anything but true into it — or it is
+	// dominated by a won CAS on the state. Without it a second Kill arriving through a reference that memoised the mailbox
+	// reports the termination a second time and deletes the registry entry again (F39).
+	if lc.OnKilledFn == nil || lc.Cleanup == nil || lc.Zombie == nil {
+		return
+	}
+	g := p.ig(lc.OnKilledFn)
+	zomb := map[edge]bool{}
+	for _, ef := range p.edgeFacts(g) {
+		if ef.Field == lc.Zombie && ef.Fact.Bool && ef.Fact.Op == token.NEQ {
+			zomb[ef.E] = true
+		}
+	}
+	_, won, _ := p.casEdges(g, lc.State, nil)
+	for i, in := range g.Nodes {
+		c := callOf(in)
+		if c == nil || c.StaticCallee() != lc.Cleanup || len(zomb) == 0 || !g.DominatedByEdges(i, zomb) {
+			continue
+		}
+		latched := len(won) > 0 && g.DominatedByEdges(i, won)
+		latch := ""
+		if !latched {
+			notYet := map[*types.Var]map[edge]bool{}
+			for _, ef := range p.edgeFacts(g) {
+				if ef.Field != nil && ef.Field != lc.Zombie && ef.Fact.Bool && ef.Fact.Op == token.EQL && isBool(ef.Field.Type()) && fieldVar(lc.Ctx, ef.Field.Name()) == ef.Field {
+					if notYet[ef.Field] == nil {
+						notYet[ef.Field] = map[edge]bool{}
+					}
+					notYet[ef.Field][ef.E] = true
+				}
+			}
+			for f, es := range notYet {
+				if !g.DominatedByEdges(i, es) {
+					continue
+				}
+				sets := nodesWhere(g, func(in2 ssa.Instruction) bool {
+					st, ok := in2.(*ssa.Store)
+					if !ok {
+						return false
+					}
+					sf, _ := fieldAddr(st.Addr)
+					b, isC := constBool(st.Val)
+					return sf == f && isC && b
+				})
+				if len(sets) == 0 || !g.DominatedByNodes(i, sets) {
+					continue
+				}
+				mono := true
+				for _, a := range p.fieldAccesses(map[*types.Var]bool{f: true}) {
+					if !a.Write || a.Fresh {
+						continue
+					}
+					st, isSt := a.In.(*ssa.Store)
+					if !isSt {
+						mono = false
+						continue
+					}
+					if b, isC := constBool(st.Val); !isC || !b {
+						mono = false
+					}
+				}
+				if mono {
+					latched, latch = true, f.Name()
+				}
+			}
+		}
+		why := "the zombie's clean-up is dominated by a won CAS on the state, or by the not-yet edge of a bool latch of the context that is set before it and never reset"
+		if latch != "" {
+			why += " (latch: " + latch + ")"
+		}
+		r.Check(latched, "zombie release is one-shot", in.Pos(), why+": a second Kill reaching the zombie's mailbox cannot report its termination again")
 	}
 }
 
@@ -617,26 +737,74 @@ func c06ChainOrder(p *Program, r *Report) {
 					f, _ := fieldLoad(strip(c2.Call.Args[0]))
 					return f == children
 				})
-				return len(yd) > 0 && !anyIn(yg.Reach(yg.entry(), yd, nilTableEdges(p, yg, children)), yg.Exits)
+				return len(yd) > 0 && !anyIn(yg.Reach(yg.entry(), yd, noEntryEdges(p, yg, children)), yg.Exits)
 			}
 		}
 		return false
 	})
 	runs := nodesWhere(g, func(in ssa.Instruction) bool { c := callOf(in); return c != nil && c.StaticCallee() == lc.ExecRecover })
 	ok := len(dels) > 0
-	before := g.Reach(g.entry(), dels, nilTableEdges(p, g, children))
+	before := g.Reach(g.entry(), dels, noEntryEdges(p, g, children))
 	for rn := range runs {
 		if before[rn] {
 			ok = false
 		}
 	}
 	r.Check(ok, "child entry removed before the death handler runs", firstPos(g, dels), "in the child-death step every run of the user's behaviour is dominated by the removal of the dead child's entry from the child table")
+	// … and only the entry of the actor the notice names. The table is keyed by PATH, and the step runs for every foreign OnKilled —
+	// also for a watched actor on another system, whose path may equal the path of a local child (symmetric deployments). Every
+	// delete from the child table under a key that is not a ranged key of the table itself is dominated by the true edge of
+	// Equals between the entry looked up in the table and a reference: the live child of a dead namesake stays in the table (F41).
+	for _, a := range p.fieldAccesses(map[*types.Var]bool{children: true}) {
+		if a.Kind != "delete" || a.Fresh {
+			continue
+		}
+		dg := p.ig(a.Fn)
+		di, in := dg.Idx[a.In]
+		if !in {
+			continue
+		}
+		dc := a.In.(*ssa.Call)
+		if ex, isEx := strip(dc.Call.Args[1]).(*ssa.Extract); isEx {
+			if _, isNext := ex.Tuple.(*ssa.Next); isNext {
+				continue // clearing loop over the table's own keys
+			}
+		}
+		same, _ := callEdges(dg, func(c *ssa.Call) bool {
+			name := ""
+			if c.Call.IsInvoke() {
+				name = c.Call.Method.Name()
+			} else if y := c.Call.StaticCallee(); y != nil {
+				name = y.Name()
+			}
+			if name != "Equals" {
+				return false
+			}
+			for _, v := range append([]ssa.Value{c.Call.Value}, c.Call.Args...) {
+				if v == nil {
+					continue
+				}
+				w := strip(v)
+				if ex, isEx := w.(*ssa.Extract); isEx {
+					w = ex.Tuple
+				}
+				if lk, isL := w.(*ssa.Lookup); isL {
+					if f, _ := fieldLoad(strip(lk.X)); f == children {
+						return true
+					}
+				}
+			}
+			return false
+		})
+		r.Check(len(same) > 0 && dg.DominatedByEdges(di, same), "child entry removed only for the actor the notice names ("+a.Fn.Name()+")", a.In.Pos(), "the delete from the path-keyed child table is dominated by Equals(entry looked up in the table, reference) == true: the death of an actor with the same path on another system does not remove the live local child")
+	}
 }
 
 // c06WatchRegisters: "every actor watching it receives exactly one OnKilled" needs every watch request to end up in the table
 // the cleanup step iterates. The table is found from that loop; in each function storing into it, no path reaches an exit
 // without the store except through: the edge on which the requester is the parent (told separately by the cleanup), the
-// found-edge of a lookup in the same table (already registered), or a direct tell to the requester.
+// edge on which the stored reference is the requester's own object, or a direct tell to the requester. ("The key is already
+// present" does not exempt: the key is address@path, the stored reference may be a dead namesake's — F38.)
 func c06WatchRegisters(p *Program, r *Report) {
 	lc := lcOrFail(p, r)
 	if lc == nil {
@@ -693,10 +861,28 @@ func c06WatchRegisters(p *Program, r *Report) {
 					stores[i] = true
 				}
 			case *ssa.Lookup:
-				if f, _ := fieldLoad(strip(x.X)); f == table && x.CommaOk {
-					found, _ := g.okEdgesLookup(x)
-					for e := range found {
-						allowed[e] = true
+				// "the same key is already present" is NOT enough: the table is keyed by address@path, and the reference
+				// stored under that key may belong to an earlier incarnation of the same name, whose memoised mailbox is gone
+				// (F38). Only the edge on which the stored reference IS the requester's reference object exempts.
+				if f, _ := fieldLoad(strip(x.X)); f == table {
+					for _, ifi := range g.ifs() {
+						for _, oc := range []bool{true, false} {
+							fc, ok := condFact(ifi.Cond, oc)
+							if !ok || fc.Y == nil || fc.Op != token.EQL {
+								continue
+							}
+							isStored := func(v ssa.Value) bool {
+								v = strip(v)
+								if ex, isEx := v.(*ssa.Extract); isEx && ex.Index == 0 {
+									return ex.Tuple == ssa.Value(x)
+								}
+								return v == ssa.Value(x)
+							}
+							isReq := func(v ssa.Value) bool { return anyContains(p.origins(v), "Sender") }
+							if (isStored(fc.X) && isReq(fc.Y)) || (isStored(fc.Y) && isReq(fc.X)) {
+								allowed[g.branchEdge(ifi, oc)] = true
+							}
+						}
 					}
 				}
 			}
@@ -733,10 +919,56 @@ func c06WatchRegisters(p *Program, r *Report) {
 		n++
 		leak := anyIn(g.Reach(g.entry(), stores, allowed), g.Exits)
 		r.Check(!leak, "watch request is recorded on every path ("+fn.Name()+")", fn.Pos(),
-			"from the entry of the handler every path stores the requester into the watcher table, except on the edge where the requester is the parent, where the same key is already present, or after telling the requester directly: a watcher that is not recorded never receives OnKilled")
+			"from the entry of the handler every path stores the requester into the watcher table, except on the edge where the requester is the parent, where the reference stored under the key is the requester's own reference object, or after telling the requester directly: a watcher that is not recorded — or whose key holds the reference of a dead namesake — never receives OnKilled")
 	}
 	if n == 0 {
 		r.Unresolved("no function stores into the watcher table")
+	}
+	// the table as a whole is replaced only when it is created lazily (a fresh map stored on the edge where the field is nil) or on a
+	// path of a kill-chain step that a RESTART cannot take: a restart keeps the reference and its watchers, and the steps of the
+	// chain other than the clean-up run for restarts too. A table dropped on a restart path forgets everybody who watched the
+	// actor before the restart: when it finally dies only the parent is told.
+	for _, a := range p.fieldAccesses(map[*types.Var]bool{table: true}) {
+		st, isSt := a.In.(*ssa.Store)
+		if !a.Write || a.Fresh || !isSt {
+			continue
+		}
+		if f, _ := fieldAddr(st.Addr); f != table {
+			continue
+		}
+		g := p.ig(a.Fn)
+		si := g.Idx[a.In]
+		if _, isMake := strip(st.Val).(*ssa.MakeMap); isMake {
+			if g.DominatedByEdges(si, nilTableEdges(p, g, table)) {
+				r.Check(true, "watcher table replaced in "+fnName(a.Fn), a.In.Pos(), "lazy creation: a fresh map is stored on the edge on which the field is nil")
+				continue
+			}
+		}
+		okR := false
+		why := "the store is neither the lazy creation nor inside a kill-chain step"
+		root := a.Fn
+		for root.Parent() != nil {
+			root = root.Parent()
+		}
+		for _, stp := range lc.Chain.Steps {
+			for _, sf := range stp.Funcs {
+				sg := p.igxSkip(sf, lc.roleFuncs(p))
+				if sf != root && !sg.owns(p, a.Fn) {
+					continue
+				}
+				ni, in := sg.Idx[a.In]
+				if !in {
+					continue
+				}
+				restartPaths := p.assumeAvoid(sg, map[*types.Var]bool{lc.Continue: true, lc.Restarting: true})
+				okR = !sg.Reach(sg.entry(), nil, restartPaths)[ni]
+				why = "in a kill-chain step, and not reachable on the paths a restart takes (continue ∧ restarting)"
+				if !okR {
+					why = "the step runs for restarts too and the store is reachable with the restarting flag set: watchers registered before a restart are forgotten, the actor's later death is reported to its parent only"
+				}
+			}
+		}
+		r.Check(okR, "watcher table replaced in "+fnName(a.Fn), a.In.Pos(), why)
 	}
 }
 
@@ -749,4 +981,61 @@ func nilTableEdges(p *Program, g *IG, f *types.Var) map[edge]bool {
 		}
 	}
 	return out
+}
+
+// noEntryEdges: the edges of g on which the path-keyed table f holds no entry for the actor a notice names: the table is nil, the
+// lookup under the key missed, or the entry found is not Equal to the reference (a namesake on another system).
+func noEntryEdges(p *Program, g *IG, f *types.Var) map[edge]bool {
+	out := nilTableEdges(p, g, f)
+	fromTable := func(v ssa.Value) *ssa.Lookup {
+		w := strip(v)
+		if ex, isEx := w.(*ssa.Extract); isEx {
+			w = ex.Tuple
+		}
+		if lk, isL := w.(*ssa.Lookup); isL {
+			if lf, _ := fieldLoad(strip(lk.X)); lf == f {
+				return lk
+			}
+		}
+		return nil
+	}
+	for _, in := range g.Nodes {
+		if lk, isL := in.(*ssa.Lookup); isL && lk.CommaOk {
+			if lf, _ := fieldLoad(strip(lk.X)); lf == f {
+				_, missing := g.okEdgesLookup(lk)
+				for e := range missing {
+					out[e] = true
+				}
+			}
+		}
+	}
+	_, notSame := callEdges(g, func(c *ssa.Call) bool {
+		name := ""
+		if c.Call.IsInvoke() {
+			name = c.Call.Method.Name()
+		} else if y := c.Call.StaticCallee(); y != nil {
+			name = y.Name()
+		}
+		if name != "Equals" {
+			return false
+		}
+		for _, v := range append([]ssa.Value{c.Call.Value}, c.Call.Args...) {
+			if v != nil && fromTable(v) != nil {
+				return true
+			}
+		}
+		return false
+	})
+	for e := range notSame {
+		out[e] = true
+	}
+	return out
+}
+
+// atomicCall2: v is the result of an atomic operation on a field (a load), else nil
+func atomicCall2(v ssa.Value) *atomicOp {
+	if in, ok := strip(v).(ssa.Instruction); ok {
+		return atomicCall(in)
+	}
+	return nil
 }
